@@ -41,7 +41,7 @@ unsigned char* vt_alloc_bytes(unsigned long n)
   return p;
 }
 void vt_free_bytes(unsigned char* p) { free(p); }
-_Bool vt_within(const void* p, const void* base, unsigned long n)
+_Bool vt_within(void* p, void* base, unsigned long n)
 {
   return __CPROVER_same_object(p, base) && __CPROVER_POINTER_OFFSET(p) >= __CPROVER_POINTER_OFFSET(base) &&
          (unsigned long)(__CPROVER_POINTER_OFFSET(p) - __CPROVER_POINTER_OFFSET(base)) < n;
@@ -70,7 +70,7 @@ void vt_native_assume(int c);
 #define VT_ASSUME(c) vt_native_assume((c))
 unsigned char* vt_alloc_bytes(unsigned long n);
 void vt_free_bytes(unsigned char* p);
-_Bool vt_within(const void* p, const void* base, unsigned long n);
+_Bool vt_within(void* p, void* base, unsigned long n);
 #endif
 
 #endif
